@@ -63,11 +63,13 @@ pub struct Scenario {
     pub state_cap: usize,
     /// OpenReader is a no-op once this many readers are open
     pub max_readers: usize,
+    /// a commit is not a transition while a reader has been open across this many commits
+    pub reader_commit_limit: Option<u64>,
 }
 
 impl Scenario {
     pub fn new(name: &str, cfg: Cfg, setup: Vec<Action>, alphabet: Box<dyn Alphabet>, depth: usize, oracles: Oracles) -> Scenario {
-        Scenario { name: name.into(), cfg, setup, alphabet, depth, oracles, extra_probes: vec![], bisim_followups: vec![], drop_keeps_digest: false, poison_unmap: false, rel_digest: false, page_budget: None, state_cap: 3_000_000, max_readers: 3 }
+        Scenario { name: name.into(), cfg, setup, alphabet, depth, oracles, extra_probes: vec![], bisim_followups: vec![], drop_keeps_digest: false, poison_unmap: false, rel_digest: false, page_budget: None, state_cap: 3_000_000, max_readers: 3, reader_commit_limit: None }
     }
 
     pub fn history(&self, h: &[u32]) -> History {
@@ -80,6 +82,7 @@ impl Scenario {
 }
 
 struct TransResult {
+    live: u64,
     digest: Option<u128>,
     violations: Vec<Violation>,
     shape: (u32, u32, u32),
@@ -129,7 +132,7 @@ fn start_runner(sc: &Scenario, path: &str, base: Option<&BaseImage>) -> Result<R
 
 /// Runs setup + history + one action on a fresh file, on the calling thread.
 fn run_transition(sc: &Scenario, path: &str, h: &[u32], a: Option<usize>, base: Option<&BaseImage>) -> TransResult {
-    let mut res = TransResult { digest: None, violations: vec![], shape: (0, 0, 0), pages: 0, reads: 0, ops: 0 };
+    let mut res = TransResult { live: 0, digest: None, violations: vec![], shape: (0, 0, 0), pages: 0, reads: 0, ops: 0 };
     let use_base = base.is_some() && !(a.is_none() && h.is_empty());
     let mut r = match start_runner(sc, path, if use_base { base } else { None }) {
         Ok(r) => r,
@@ -174,6 +177,14 @@ fn run_transition(sc: &Scenario, path: &str, h: &[u32], a: Option<usize>, base: 
                 return res;
             }
         }
+        if let (Some(limit), Action::Tx { commit: true, .. }) = (sc.reader_commit_limit, &act) {
+            if r.reader_models().iter().any(|(_, age)| *age >= limit) {
+                return res;
+            }
+        }
+        if act == Action::Reopen && r.num_readers() > 0 {
+            return res;
+        }
         let before = if sc.drop_keeps_digest && is_noncommitting(&act) { Some(r.digest()) } else { None };
         let v = r.step(&act, &sc.oracles);
         res.violations.extend(v);
@@ -193,6 +204,7 @@ fn run_transition(sc: &Scenario, path: &str, h: &[u32], a: Option<usize>, base: 
             let bytes = r.file_bytes();
             if let Ok(rep) = crate::fileck::check(&bytes, sc.cfg.pagesize) {
                 res.pages = rep.num_pages;
+                res.live = rep.live_pages;
                 if let Some(b) = sc.page_budget {
                     if rep.num_pages > b {
                         res.violations.push(Violation::new("page_budget_exceeded", format!("high-water mark {} pages exceeds the budget {} for this bounded workload", rep.num_pages, b)));
@@ -241,12 +253,35 @@ pub fn worker(idx: usize) {
         let lo = j["lo"].as_u64().unwrap() as usize;
         let hi = j["hi"].as_u64().unwrap() as usize;
         let root = j["root"].as_bool().unwrap_or(false);
+        if let Some(pair) = j.get("cmp") {
+            // abstraction cross-check: two histories merged by the digest must have equal successors
+            let sc = &scs[si];
+            if !bases.contains_key(&si) {
+                let b = build_base_image(sc, &path);
+                bases.insert(si, b);
+            }
+            let base = bases.get(&si).unwrap().as_ref();
+            let h1: Vec<u32> = pair[0].as_array().unwrap().iter().map(|x| x.as_u64().unwrap() as u32).collect();
+            let h2: Vec<u32> = pair[1].as_array().unwrap().iter().map(|x| x.as_u64().unwrap() as u32).collect();
+            let mut bad = vec![];
+            let mut n = 0;
+            for a in 0..sc.alphabet.len() {
+                let r1 = run_transition(sc, &path, &h1, Some(a), base);
+                let r2 = run_transition(sc, &path, &h2, Some(a), base);
+                n += 1;
+                if r1.digest != r2.digest {
+                    bad.push(a);
+                }
+            }
+            return json!({"cmp_actions": n, "cmp_bad": bad}).to_string();
+        }
         let mut digests: Vec<String> = vec![];
         let mut viols: Vec<Value> = vec![];
         let mut shapes: BTreeMap<String, u64> = BTreeMap::new();
         let mut reads = 0u64;
         let mut ops = 0u64;
         let mut max_pages = 0u64;
+        let mut max_live = 0u64;
         let range: Vec<Option<usize>> = if root { vec![None] } else { (lo..hi).map(Some).collect() };
         let sc = &scs[si];
         if !bases.contains_key(&si) {
@@ -294,6 +329,7 @@ pub fn worker(idx: usize) {
                     reads += res.reads;
                     ops += res.ops;
                     max_pages = max_pages.max(res.pages);
+                    max_live = max_live.max(res.live);
                 }
                 Err(p) => {
                     digests.push(String::new());
@@ -301,7 +337,7 @@ pub fn worker(idx: usize) {
                 }
             }
         }
-        json!({"d": digests, "v": viols, "shapes": shapes, "reads": reads, "ops": ops, "max_pages": max_pages}).to_string()
+        json!({"d": digests, "v": viols, "shapes": shapes, "reads": reads, "ops": ops, "max_pages": max_pages, "max_live": max_live}).to_string()
     });
 }
 
@@ -347,6 +383,7 @@ fn run_followup(sc: &'static Scenario, path: &str, h: &[u32], a: Option<usize>, 
 }
 
 pub struct SearchStats {
+    pub max_live: u64,
     pub states: u64,
     pub transitions: u64,
     pub depth_completed: usize,
@@ -380,8 +417,11 @@ pub fn explore(check: &mut Check, prop: &str, engine: &str) {
         }
         let t0 = std::time::Instant::now();
         let mut visited: HashSet<u128> = HashSet::new();
+        let mut first_hist: std::collections::HashMap<u128, Vec<u32>> = std::collections::HashMap::new();
+        let mut merge_pairs: Vec<(Vec<u32>, Vec<u32>)> = vec![];
+        let commit_count = |h: &[u32]| -> usize { h.iter().filter(|&&i| matches!(sc.alphabet.get(i as usize), Action::Tx { commit: true, .. })).count() };
         let mut frontier: Vec<Vec<u32>> = vec![];
-        let mut st = SearchStats { states: 0, transitions: 0, depth_completed: 0, cap_hit: false, closed: false, max_pages: 0 };
+        let mut st = SearchStats { max_live: 0, states: 0, transitions: 0, depth_completed: 0, cap_hit: false, closed: false, max_pages: 0 };
         // root
         let mut root_ok = false;
         let mut root_viol = vec![];
@@ -413,7 +453,7 @@ pub fn explore(check: &mut Check, prop: &str, engine: &str) {
         let chunk = if n > 4096 { 512 } else if n > 256 { 128 } else { n.max(1) };
         for depth in 0..sc.depth {
             if frontier.is_empty() {
-                st.closed = true;
+                st.closed = !st.cap_hit;
                 break;
             }
             let mut jobs = vec![];
@@ -451,9 +491,20 @@ pub fn explore(check: &mut Check, prop: &str, engine: &str) {
                                 if visited.len() <= sc.state_cap {
                                     let mut h = frontier[fi].clone();
                                     h.push((lo + k) as u32);
+                                    if sc.rel_digest && first_hist.len() < 500_000 {
+                                        first_hist.insert(dg, h.clone());
+                                    }
                                     next.push(h);
                                 } else {
                                     st.cap_hit = true;
+                                }
+                            } else if sc.rel_digest && merge_pairs.len() < 400 {
+                                if let Some(h1) = first_hist.get(&dg) {
+                                    let mut h2 = frontier[fi].clone();
+                                    h2.push((lo + k) as u32);
+                                    if commit_count(h1) != commit_count(&h2) && (st.transitions + merge_pairs.len() as u64) % 7 == 0 {
+                                        merge_pairs.push((h1.clone(), h2));
+                                    }
                                 }
                             }
                         }
@@ -473,6 +524,7 @@ pub fn explore(check: &mut Check, prop: &str, engine: &str) {
                         total_reads += v["reads"].as_u64().unwrap_or(0);
                         total_ops += v["ops"].as_u64().unwrap_or(0);
                         st.max_pages = st.max_pages.max(v["max_pages"].as_u64().unwrap_or(0));
+                        st.max_live = st.max_live.max(v["max_live"].as_u64().unwrap_or(0));
                     }
                     Outcome::Crashed { last_marker, status, stderr_tail } => {
                         let mut h = frontier[fi].clone();
@@ -508,14 +560,46 @@ pub fn explore(check: &mut Check, prop: &str, engine: &str) {
             st.depth_completed = depth + 1;
             next.sort();
             frontier = next;
-            if frontier.is_empty() {
+            if frontier.is_empty() && !st.cap_hit {
                 st.closed = true;
+            }
+            if sc.rel_digest && st.max_pages > 4 * st.max_live + 16 {
+                // leaking: the budget check below reports it; no point in unrolling further
+                st.cap_hit = true;
+                break;
             }
             if check.elapsed() > budget_s {
                 if depth + 1 < sc.depth && !frontier.is_empty() {
                     st.cap_hit = true;
                 }
                 break;
+            }
+        }
+        let mut merges_checked = 0u64;
+        if sc.rel_digest {
+            // abstraction cross-check on states merged across different transaction ids
+            let jobs: Vec<String> = merge_pairs.iter().map(|(a, b)| json!({"s": si, "h": [], "lo": 0, "hi": 0, "cmp": [a, b]}).to_string()).collect();
+            let mut bad: Vec<(usize, Vec<u64>)> = vec![];
+            pool.run(jobs, |ji, o| {
+                if let Outcome::Done(r) = o {
+                    let v: Value = serde_json::from_str(&r).unwrap_or(Value::Null);
+                    merges_checked += v["cmp_actions"].as_u64().unwrap_or(0);
+                    let b: Vec<u64> = v["cmp_bad"].as_array().map(|a| a.iter().filter_map(|x| x.as_u64()).collect()).unwrap_or_default();
+                    if !b.is_empty() {
+                        bad.push((ji, b));
+                    }
+                }
+            });
+            for (ji, b) in bad {
+                check.machinery_error(format!("[{}] digest abstraction unsound: histories {:?} and {:?} were merged but differ after actions {:?}", sc.name, merge_pairs[ji].0, merge_pairs[ji].1, b));
+            }
+            // page budget: a bounded workload must stay within a few snapshots' worth of pages
+            let budget = 4 * st.max_live + 16;
+            if st.max_pages > budget {
+                let h = frontier.first().cloned().unwrap_or_default();
+                let hist = sc.history(&h);
+                let seed = check.seed;
+                check.violation("unbounded_growth", &format!("[{}] high-water mark reached {} pages although no snapshot of this workload needs more than {} pages (budget 4 x that + 16 = {}); search {} after {} states", sc.name, st.max_pages, st.max_live, budget, if st.closed { "closed" } else { "did not close" }, st.states), || json!({"engine": "seqx", "prop": prop, "tier": tier.name(), "seed": seed, "scenario": sc.name, "indices": h, "history": hist.to_json()}));
             }
         }
         if st.cap_hit || (st.depth_completed < sc.depth && !st.closed) {
@@ -531,7 +615,7 @@ pub fn explore(check: &mut Check, prop: &str, engine: &str) {
         per_scenario.push(json!({
             "scenario": sc.name, "alphabet": n, "depth_bound": sc.depth, "depth_completed": st.depth_completed,
             "states": st.states, "transitions": st.transitions, "cap_hit": st.cap_hit, "closed_before_bound": st.closed,
-            "max_pages": st.max_pages, "wall_s": (t0.elapsed().as_secs_f64() * 100.0).round() / 100.0,
+            "max_pages": st.max_pages, "largest_snapshot_pages": st.max_live, "merged_pairs_cross_checked": merge_pairs.len(), "successor_comparisons": merges_checked, "wall_s": (t0.elapsed().as_secs_f64() * 100.0).round() / 100.0,
         }));
     }
     check.cov("states", json!(total_states));
